@@ -98,6 +98,52 @@ def extension(ops, info, rng):
     return extra, kind
 
 
+def reroute(ops, info, rng):
+    """The same samples declared through another route: through the combination c * f instead of f itself."""
+    f = info.get("main_f")
+    if not f:
+        return list(ops), None
+    c = rng.choice([1.0, 2.0, 0.5, 4.0])
+    out, F = [], None
+    n = 0
+    for op in ops:
+        hit = op.get("f") == f and op["op"] in ("stationary", "oracle", "gradient", "value") and \
+            rng.random() < (0.8 if op["op"] == "stationary" else 0.4)
+        if not hit:
+            out.append(op)
+            continue
+        if F is None:
+            F = "rt_F"
+            out.append({"op": "fexpr", "out": F, "expr": rng.choice([["mul", c, f], ["rmul", c, f], ["div", f, 1.0 / c]])})
+        n += 1
+        o = dict(op)
+        o["f"] = F
+        if op["op"] == "stationary":
+            xs, gs, fs = op["out"]
+            o["out"] = [xs, gs, "rt_" + fs]
+            out.append(o)
+            out.append({"op": "elin", "out": fs, "terms": [["rt_" + fs, 1.0 / c]]})
+        elif op["op"] == "oracle":
+            g, v = op["out"]
+            o["out"] = ["rt_" + g, "rt_" + v]
+            out.append(o)
+            out.append({"op": "plin", "out": g, "terms": [["rt_" + g, 1.0 / c]]})
+            out.append({"op": "elin", "out": v, "terms": [["rt_" + v, 1.0 / c]]})
+        elif op["op"] == "gradient":
+            g = op["out"]
+            o["out"] = "rt_" + g
+            o.pop("name", None)
+            out.append(o)
+            out.append({"op": "plin", "out": g, "terms": [["rt_" + g, 1.0 / c]]})
+        else:
+            v = op["out"]
+            o["out"] = "rt_" + v
+            o.pop("name", None)
+            out.append(o)
+            out.append({"op": "elin", "out": v, "terms": [["rt_" + v, 1.0 / c]]})
+    return out, (c if n else None)
+
+
 class C04(Prop):
     id = "C04"
     level = "exploration"
@@ -120,7 +166,7 @@ class C04(Prop):
                   "stub": ["solver in TAGGED runs", "sys.stdout"]}
 
     def generate(self, rng, tier, idx):
-        case = ["order", "order", "order-value", "extension", "order-resolve"][idx % 5]
+        case = ["order", "order", "order-value", "extension", "order-resolve", "route"][idx % 6]
         w = W04
         if case == "order-resolve":
             # ConvexQG / RsiEb record a stationary point of their own *during* a solve when none is declared yet:
@@ -138,7 +184,14 @@ class C04(Prop):
         s["peer"]["force_solver"] = True
         plan = {"case": case, "base": list(b.ops), "solve": s, "info": info,
                 "tag": "%s/%s/%s" % (case, b.info.get("template"), b.info.get("cls"))}
-        if case == "order-resolve":
+        if case == "route":
+            alt, c = reroute(b.ops, info, rng)
+            plan["alt"] = alt
+            plan["alt2"] = None
+            plan["ext_kind"] = None
+            plan["case"] = "order-value"
+            plan["tag"] = plan["tag"].replace("route", "same-samples-through-c*f" if c else "route-none")
+        elif case == "order-resolve":
             # the same declarations interleaved with an earlier solve: solve after a prefix of the (shuffled)
             # program, declare the rest, solve again; the last solve must see the same class rows as the program
             # that declares everything and solves once
